@@ -12,6 +12,16 @@
 
 typedef unsigned __int128 u128;
 
+/* ./check C18 --replay: C18_ONLY_DESC=<case description> runs only the case(s) with exactly that description */
+static const char *only_desc; static uint64_t only_matched;
+static int
+want_case(void) {
+	if (NULL == only_desc) return (1);
+	if (0 != strcmp(vh_get_desc(), only_desc)) return (0);
+	only_matched ++;
+	return (1);
+}
+
 static uint32_t ref_mask4(unsigned len) { return (len == 0 ? 0u : (0xffffffffu << (32 - len))); }
 static u128 ref_mask6(unsigned len) { return (len == 0 ? (u128)0 : (~(u128)0 << (128 - len))); }
 static void st32(uint8_t *o, uint32_t v) { o[0] = (uint8_t)(v >> 24); o[1] = (uint8_t)(v >> 16); o[2] = (uint8_t)(v >> 8); o[3] = (uint8_t)v; }
@@ -35,6 +45,7 @@ lenmask_all(void) {
 	for (len = 0; len <= 32; len ++) {
 		if (!vh_begin("inet_len2mask")) continue;
 		vh_desc("len=%u", len);
+		if (!want_case()) continue;
 		memset(h_m4, 0xA5, 4);
 		rc = inet_len2mask(len, h_m4);
 		st32(want, ref_mask4(len));
@@ -46,6 +57,7 @@ lenmask_all(void) {
 		if (BADLEN[i] <= 32) continue;
 		if (!vh_begin("inet_len2mask")) continue;
 		vh_desc("len=%zu (out of range)", BADLEN[i]);
+		if (!want_case()) continue;
 		memset(h_m4, 0xA5, 4);
 		rc = inet_len2mask(BADLEN[i], h_m4);
 		if (rc == 0) vh_fail("invalid-length-accepted", "rc=0, mask %08x", ntohl(h_m4->s_addr));
@@ -54,6 +66,7 @@ lenmask_all(void) {
 	for (len = 0; len <= 32; len ++) { /* mask2len on the reference mask, and inverse of the library's own mask */
 		if (!vh_begin("inet_mask2len")) continue;
 		vh_desc("len=%u", len);
+		if (!want_case()) continue;
 		st32((uint8_t *)h_m4, ref_mask4(len));
 		back = inet_mask2len(h_m4);
 		if (back != (int)len) vh_fail("length-value", "mask of /%u gives %d", len, back);
@@ -66,6 +79,7 @@ lenmask_all(void) {
 	for (len = 0; len <= 128; len ++) {
 		if (!vh_begin("inet6_len2mask")) continue;
 		vh_desc("len=%u", len);
+		if (!want_case()) continue;
 		memset(h_m6, 0xA5, 16);
 		rc = inet6_len2mask(len, h_m6);
 		st128(want, ref_mask6(len));
@@ -77,6 +91,7 @@ lenmask_all(void) {
 		if (BADLEN[i] <= 128) continue;
 		if (!vh_begin("inet6_len2mask")) continue;
 		vh_desc("len=%zu (out of range)", BADLEN[i]);
+		if (!want_case()) continue;
 		memset(h_m6, 0xA5, 16);
 		rc = inet6_len2mask(BADLEN[i], h_m6);
 		if (rc == 0) vh_fail("invalid-length-accepted", "rc=0");
@@ -85,6 +100,7 @@ lenmask_all(void) {
 	for (len = 0; len <= 128; len ++) {
 		if (!vh_begin("inet6_mask2len")) continue;
 		vh_desc("len=%u", len);
+		if (!want_case()) continue;
 		st128((uint8_t *)h_m6, ref_mask6(len));
 		back = inet6_mask2len(h_m6);
 		if (back != (int)len) vh_fail("length-value", "mask of /%u gives %d", len, back);
@@ -146,6 +162,7 @@ v4_grid(void) {
 		for (len = 0; len <= 32; len ++) {
 			if (!vh_begin("ipv4_prefix_arith")) continue;
 			vh_desc("addr=%08x len=%u", a, len);
+			if (!want_case()) continue;
 			w = v4_one(a, len, 1, why, sizeof(why));
 			if (w) report4(w, why); else vh_nontrivial();
 		}
@@ -154,6 +171,7 @@ v4_grid(void) {
 			if (BADLEN[j] > 65535) continue;	/* parameter is uint16_t */
 			if (!vh_begin("net_addr_truncate_preflen")) continue;
 			vh_desc("inet addr=%08x len=%zu (out of range)", a, BADLEN[j]);
+			if (!want_case()) continue;
 			memset(h_sin, 0, sizeof(*h_sin)); h_sin->sin_family = AF_INET; h_sin->sin_addr.s_addr = htonl(a);
 			net_addr_truncate_preflen((struct sockaddr_storage *)h_sin, (uint16_t)BADLEN[j]);
 			vh_nontrivial();	/* memory safety only (ASan); the resulting value is not specified */
@@ -172,6 +190,7 @@ v4_sweep(void) {
 	for (blk = 0; blk < (1u << 24); blk ++) {
 		if (!vh_begin("ipv4_prefix_arith_all_addresses")) continue;
 		cur_blk = blk; bad = 0;
+		if (!want_case()) continue;
 		memset(h_sin, 0, sizeof(*h_sin)); h_sin->sin_family = AF_INET; h_sin->sin_port = htons(0x1234);
 		for (lo = 0; lo < 256; lo ++) {
 			a = (blk << 8) | lo; be = htonl(a);
@@ -211,8 +230,7 @@ static void
 v6_addr(const uint8_t *ab) {
 	u128 a = ld128(ab), m, net; unsigned len, k; uint8_t wn[16], wm[16]; int r; size_t j;
 
-	if (vh_begin("ipv6_prefix_arith")) {
-		memcpy(cur6, ab, 16);
+	if (vh_begin("ipv6_prefix_arith") && (memcpy(cur6, ab, 16), want_case())) {
 		for (len = 0; len <= 128; len ++) {
 			m = ref_mask6(len); net = a & m;
 			st128(wn, net); st128(wm, m);
@@ -244,6 +262,7 @@ v6_addr(const uint8_t *ab) {
 		if (BADLEN[j] <= 128 || BADLEN[j] > 65535) continue;
 		if (!vh_begin("net_addr_truncate_preflen")) continue;
 		{ char h[40]; vh_hex(h, sizeof(h), ab, 16); vh_desc("inet6 addr=%s len=%zu (out of range)", h, BADLEN[j]); }
+		if (!want_case()) continue;
 		memset(h_sin6, 0, sizeof(*h_sin6)); h_sin6->sin6_family = AF_INET6; memcpy(&h_sin6->sin6_addr, ab, 16);
 		net_addr_truncate_preflen((struct sockaddr_storage *)h_sin6, (uint16_t)BADLEN[j]);
 		vh_nontrivial();
@@ -275,6 +294,7 @@ v6_all(void) {
 int
 main(int argc, char **argv) {
 	vh_init(argc, argv);
+	only_desc = getenv("C18_ONLY_DESC");
 	h_m4 = malloc(4); h_n4 = malloc(4); h_a4 = malloc(4);
 	h_m6 = malloc(16); h_n6 = malloc(16); h_a6 = malloc(16);
 	h_sin = malloc(sizeof(*h_sin)); h_sin6 = malloc(sizeof(*h_sin6));
@@ -285,5 +305,6 @@ main(int argc, char **argv) {
 	v4_grid();
 	v6_all();
 #endif
+	if (only_desc) printf("NOTE\treplay_matched=%llu\n", (unsigned long long)only_matched);
 	return (vh_finish());
 }
